@@ -233,3 +233,29 @@ def facts_text(A: Analysis, func: FuncInfo, cfg: CFG, node_id: int) -> List[Tupl
         f = getattr(owner, '_info', None) or func
         out.append((src_resolved(A, f, a), pol))
     return out
+
+
+def resolve_expr(A: Analysis, root: FuncInfo, e, owner: FuncInfo, sites, keep=(), depth=0):
+    """Expression of an (inlined) helper rewritten in the caller's terms: helper parameters become the arguments at the
+    call site, single-assignment locals their definitions (names in `keep` are left alone)."""
+    if depth > 5 or not isinstance(e, ast.Name):
+        return e
+    if owner is not root and sites and e.id in owner.params:
+        call = sites[-1]
+        skip = owner.cls is not None and not owner.is_static and owner.parent is None and isinstance(call.func, ast.Attribute)
+        ba = bound_args(call, owner, skip_self=skip) or {}
+        if e.id in ba:
+            # the argument is written in the function that contains the call site
+            caller = root
+            for n, o, s_ in A.nodes_with_sites(root):
+                if n is call:
+                    caller = o
+                    break
+            return resolve_expr(A, root, ba[e.id], caller, sites[:-1], keep, depth + 1)
+        return e
+    if owner is root and e.id in keep:
+        return e
+    e2 = subst_single_assign(A, owner, e)
+    if e2 is not e:
+        return resolve_expr(A, root, e2, owner, sites, keep, depth + 1)
+    return e
